@@ -27,6 +27,7 @@ EXPLANATION = (
     "and retirement is tested as pairs_left == 0 after the decrement; a keep-response allocates only below a returning test of "
     "_has_virtual_address; the three wait instructions poll with any / all / single None tests."
     ' C12.D: the flag get_creator_node_id compares with an integer literal is never supplied as a member of a plain Enum by a producer of a response. C12.Z: no truthiness test on an int-typed value.'
+    ' C12.F: in the methods touching the EPR request / response queues no state change precedes a raise, an assert or a call into the network stack (which may refuse): a refused request is never outstanding. C12.K: memoisation keys cover the arguments.'
 )
 LEVEL_TEXT = (
     "Static analysis, structure only: necessary shape conditions of the request/response matching for every access site. The "
@@ -617,9 +618,17 @@ def run(ctx):
     check_accounting(ctx, ex)
     check_busy(ctx, ex)
     check_waits(ctx, ex)
+    # "consumed ... by the oldest outstanding request": a request the network stack refused (put raises) must not be outstanding,
+    # nor may any other fault leave a half-registered request behind (fault-atomicity rule of C13, restricted to the queue code)
+    from . import c13
+    queues = ("_epr_create_requests", "_epr_recv_requests", "_pending_epr_responses")
+    c13.check_fault_atomicity(ctx, "C12.F", only=lambda name, fn: any(isinstance(x, ast.Attribute) and x.attr in queues for x in ast.walk(fn)), floor=1)
     # 0 is an ordinary id / value / address: nothing int-valued may be tested by truthiness (nqsa/truth.py)
     from .. import truth
     truth.check(ctx, "C12.Z", ['netqasm.backend.executor', 'netqasm.qlink_compat'])
+    # a value remembered for later calls is keyed by every argument it depends on (nqsa/memo.py)
+    from .. import memo
+    memo.check(ctx, "C12.K", ['netqasm.backend.executor', 'netqasm.qlink_compat'])
 
 
 X = "netqasm/backend/executor.py"
